@@ -174,6 +174,7 @@ def parser_table(ck, prog):
     order = []  # suffix literals in test order (from the longest path)
     for o in outs:
         tests = []
+        group_items = {}      # slice term -> the literals it was found to be one of
         for c, t in o.state.path:
             while isinstance(c, NotC):
                 c, t = c.c, not t
@@ -186,6 +187,8 @@ def parser_table(ck, prog):
                 if base == stripped and hi == NONE and step == NONE and isinstance(lo, _Sym) and \
                         lo.is_const() and lo.const_value() < 0:
                     tests.append((lits, int(-lo.const_value()), t))
+                    if t:
+                        group_items[c.item] = lits
                     continue
             if isinstance(c, Cmp) and c.op in ('==', '!='):
                 # s.removesuffix(lit) != s  <=>  s ends with lit (lit non-empty)
@@ -245,7 +248,8 @@ def parser_table(ck, prog):
         if not (isinstance(val, Tup) and len(val.items) == 2):
             raise AnalysisError('parser: unexpected return %r' % (val,))
         num, unit = val.items
-        if not (isinstance(unit, Str) and unit.is_lit()):
+        unit_is_suffix = unit in group_items      # units = s[-k:] after s[-k:] in (...) held
+        if not unit_is_suffix and not (isinstance(unit, Str) and unit.is_lit()):
             raise AnalysisError('parser: unit is not a literal on some path')
         if not (isinstance(num, Opaque) and num.label == 'float' and len(num.args) == 1):
             ck.ob('C12-D3-parser', 'parser::float-conversion', False,
@@ -266,11 +270,27 @@ def parser_table(ck, prog):
                     first(x[0]) == rest.args[1].text() and x[2] for x in tests) else 0
             elif rest == stripped:
                 w_strip = 0
+            elif isinstance(rest, Opaque) and rest.label == 'slice' and rest.args[0] == inp \
+                    and rest.args[1] == NONE and isinstance(rest.args[2], _Sym) \
+                    and rest.args[2].is_const() and rest.args[2].const_value() < 0 \
+                    and rest.args[3] == NONE and stripped != inp:
+                one = first(lit)
+                k = int(-rest.args[2].const_value())
+                text = '10' + one + ' '
+                ck.ob('C12-D3-parser', 'parser::suffix-removed-from-stripped-text', False,
+                      'the suffix %r is recognised on the stripped text but its %d characters are '
+                      'cut from the unstripped argument: for %r the numeric part becomes %r '
+                      '(the property includes surrounding whitespace)'
+                      % (one, k, text, text[:-k]), fn.loc(),
+                      key='parseLengthWithUnits::slice-of-unstripped')
+                continue
             else:
                 raise AnalysisError('parser: numeric part is not s[:-k]: %r' % (rest,))
             for one in (lit if isinstance(lit, tuple) else (lit,)):
-                rows.append((one, w_test, w_strip, unit.text()))
+                rows.append((one, w_test, w_strip, one if unit_is_suffix else unit.text()))
         else:
+            if unit_is_suffix:
+                raise AnalysisError('parser: unit is not a literal on some path')
             rows.append((None, 0, 0 if rest == stripped else -1, unit.text()))
     canon = {'q': 'Q'}
     seen = set()
